@@ -32,6 +32,7 @@ struct Obj
   std::string kind;
   long long rate8, eps8, T, tickNs, W;
   long long now = 0, last = 0;       // ticks
+  long long baseNs = 0;              // absolute offset of the clock (e.g. stamps counted from the Unix epoch)
   std::unique_ptr<RateMonitoring> mon;
   std::unique_ptr<CheckupEqualToRate> eq;
   std::unique_ptr<CheckupGreaterThanRate> gt;
@@ -39,7 +40,9 @@ struct Obj
   : kind(k), rate8(r8), eps8(e8), T(t), tickNs(1000000000LL / t)
   {
     W = std::min(64LL, std::max(4LL, r8 / 4));     // the property's formula: clamp(2 * expected rate, 4, 64)
-    if (k == "mon") {mon.reset(new RateMonitoring(r8 / 8.0));}
+    if (k == "mon") {
+      if (r8 % 2) {mon.reset(new RateMonitoring()); mon->initialize(r8 / 8.0);} else {mon.reset(new RateMonitoring(r8 / 8.0));}     // both construction paths
+    }
     if (k == "eq") {eq.reset(new CheckupEqualToRate(NAME, r8 / 8.0, e8 / 8.0));}
     if (k == "gt") {gt.reset(new CheckupGreaterThanRate(NAME, r8 / 8.0, e8 / 8.0));}
   }
@@ -78,7 +81,7 @@ struct Obj
   std::string stamp(long long dt)
   {
     now = last + dt; last = now;
-    Duration d = durationFromNanoSecond(now * tickNs);
+    Duration d = durationFromNanoSecond(baseNs + now * tickNs);
     vh::Ev e("stamp");
     e.i("dt", dt);
     if (mon) {
@@ -94,7 +97,7 @@ struct Obj
   }
   std::string heartbeat(long long gap)
   {
-    Duration d = durationFromNanoSecond((last + gap) * tickNs);
+    Duration d = durationFromNanoSecond(baseNs + (last + gap) * tickNs);
     vh::Ev e("hb");
     e.i("gap", gap);
     if (mon) {
@@ -156,6 +159,8 @@ static void randomExec(vh::Rng & r, vh::Out & out)
   long long rate8 = r.coin(1, 3) ? r.range(4, 40) : r.range(4, 1600);       // 0.5 .. 200 Hz
   long long eps8 = r.coin(1, 4) ? 0 : r.range(0, rate8 / 2);
   Obj o(kind, rate8, eps8, T);
+  // one execution in three uses epoch-sized absolute stamps (1.7e18 ns): only differences of stamps matter to the property
+  if (r.coin(1, 3)) {o.baseNs = 1700000000LL * 1000000000LL + r.range(0, 999999999);}
   out.puts(o.reset());
   if (!o.mon) {out.puts(o.first());}
   long long nominal = std::max(1LL, std::min(micro ? 2000LL : 10000LL, (8 * T) / rate8));   // expected period in ticks
@@ -184,6 +189,10 @@ static void randomExec(vh::Rng & r, vh::Out & out)
     else {dt = r.range(1, maxp);}
     dt = std::min(dt, started && s > 0 ? maxp : 1000000LL);
     out.puts(o.stamp(dt));
+    if (o.mon && r.coin(1, 30)) {
+      std::unique_ptr<RateMonitoring> c(new RateMonitoring(*o.mon)); o.mon = std::move(c);                  // continue on a copy
+      out.puts(o.heartbeat(0));                                                                           // and observe it at once: same rate, no timeout
+    }
   }
 }
 
